@@ -58,6 +58,29 @@ def run_unit(unit, repo, workdir, variables=None, rlimit=None, suffix=''):
     subset the unit's stubs cover), those blocks are left out and the unit is run once more, so that one such block makes only its
     own obligations undecided instead of the whole unit's"""
     res = _run_unit_once(unit, repo, workdir, variables, rlimit, suffix)
+    # a constant the extracted code names but the unit does not extract (a refactor introduced it): if the same source file defines
+    # `const NAME`, it is extracted too and the unit is run again
+    missing = set()
+    for t in res.tooling:
+        missing.update(re.findall(r'cannot find value `([A-Z][A-Z0-9_]*)` in this scope', t))
+    if missing and not (variables or {}).get('__extra_consts__'):
+        files = sorted({p_['file'] for p_ in res.pieces if p_.get('file', '').endswith('.rs')})
+        extra = []
+        for name in sorted(missing):
+            for f_ in files:
+                try:
+                    txt = open(os.path.join(repo, f_)).read()
+                except OSError:
+                    continue
+                if re.search(r'\bconst\s+' + re.escape(name) + r'\s*:', txt):
+                    extra.append((f_, name))
+                    break
+        if extra:
+            v1 = dict(variables or {})
+            v1['__extra_consts__'] = extra
+            res1 = _run_unit_once(unit, repo, workdir, v1, rlimit, suffix)
+            res1.wall_s += res.wall_s
+            res, variables = res1, v1
     bad = getattr(res, 'compile_bad_blocks', None)
     if bad and not (variables or {}).get('__skip_blocks__'):
         v2 = dict(variables or {})
@@ -74,6 +97,16 @@ def _run_unit_once(unit, repo, workdir, variables=None, rlimit=None, suffix=''):
     t0 = time.time()
     with open(os.path.join(UNITS_DIR, unit + '.rs')) as f:
         tmpl = expand_includes(f.read())
+    extra_consts = (variables or {}).get('__extra_consts__') or []
+    if extra_consts:
+        lines_ = tmpl.split('\n')
+        at = next((i_ for i_, l_ in enumerate(lines_) if l_.strip() == 'verus! {'), None)
+        if at is not None:
+            ins = []
+            for f_, name in extra_consts:
+                ins += [f'//@@ item file={f_} const={name}', '//@@ end']
+            lines_[at + 1:at + 1] = ins
+            tmpl = '\n'.join(lines_)
     try:
         gen = template.generate(repo, tmpl, variables)
     except (LostAnchor, template.TemplateError, Exception) as e:  # noqa
